@@ -6,6 +6,20 @@ import os
 
 V = os.path.dirname(os.path.dirname(os.path.abspath(__file__)))
 D = {
+ "C01-3": ("src/bash.rs emitted top-level walk: `local command_candidates_seen=0` moved out of the per-word loop, so the flag survives from one word to the next",
+           "a top-level command with candidates earlier on the line, then a foreign last complete word at a state where no command is expected"),
+ "C03-3": ("src/dfa.rs DFAInternPool::intern minimises its argument again; minimisation is not idempotent once the start state has been renumbered to the dead-state id 0",
+           "a within-word expression whose minimal automaton loops back into its start state (the word begins with an optional repetition) next to a state that differs only in that"),
+ "C04-3": ("the three private make_string_constant copies of bash.rs/fish.rs/zsh.rs replaced by one shared function with the fish body (no backtick escaping for bash and zsh)",
+           "a literal or description containing a backtick"),
+ "C05-3": ("src/parse.rs comment(): take_till(newline) replaced by nom's not_line_ending, which fails on a carriage return not followed by a line feed",
+           "a # comment containing a lone carriage return"),
+ "C06-3": ("src/check.rs do_distribute_descriptions: the DistributiveDescription arm returns the wrapper node itself when nothing changed underneath",
+           "a description attached to something with no undescribed literal underneath, e.g. `<FILE> \"d\"` or `({{{ ls }}}) \"d\"`"),
+ "C08-3": ("src/dfa.rs do_check_ambiguity_best_effort: the literal transitions of a state are compared per (literal, fallback level) instead of per literal",
+           "the same literal with two different descriptions on opposite sides of a `||`"),
+ "C09-3": ("src/regex.rs Regex equality/hash ignore source spans + src/dfa.rs DFAInternPool becomes a plain Vec (no structural interning of minimised automata)",
+           "two differently spelled within-word expressions with the same minimal automaton expected at one point, followed by different continuations"),
  "C01-1": ("src/tables.rs shape_hash and isomorphic_to (two cooperating sites) no longer look at the completion tables",
            "two same-shaped within-word expressions in one grammar, one using `||` and one using `|` inside the word; they then share one emitted table set"),
  "C01-2": ("src/bash.rs emitted __complgen_match: the typed prefix is no longer %q-quoted and acts as a glob pattern",
